@@ -609,6 +609,9 @@ type llmnrCase struct {
 	CloseAt int   `json:"close_after_clients"` // -1: after the burst
 	Debug   bool  `json:"debug,omitempty"`     // SetDebug(true): Serve logs every datagram through the library's logger, and so does the handler
 	Servers int   `json:"servers,omitempty"`   // 0 = 1; with 2, client i talks to server i%2 (two serve loops in one process)
+	// Describe: the library's own HandlerDescribePacket follows the answering handler in the chain (it logs every
+	// packet under the logger's lock); requests must still be answered and Close must still leave nothing behind.
+	Describe bool `json:"describe_packet_handler,omitempty"`
 }
 
 func (c llmnrCase) servers() int {
@@ -652,7 +655,11 @@ func runLLMNRServer(c llmnrCase) []vf.Finding {
 	}
 	var insts []*instance
 	for k := 0; k < c.servers(); k++ {
-		srv, err := llmnr.NewServer("udp4", []llmnr.Handler{handler})
+		chain := []llmnr.Handler{handler}
+		if c.Describe {
+			chain = append(chain, llmnr.HandlerFunc(llmnr.HandlerDescribePacket))
+		}
+		srv, err := llmnr.NewServer("udp4", chain)
 		if err != nil {
 			return []vf.Finding{vf.F("harness", "cannot-create-llmnr-server", "%v", err)}
 		}
@@ -755,8 +762,12 @@ func TestLLMNRServerIsolation(t *testing.T) {
 		} else {
 			c.Servers = rapid.SampledFrom([]int{1, 1, 1, 2}).Draw(t, "servers")
 		}
+		c.Describe = rapid.IntRange(0, 2).Draw(t, "describe") == 0
 		return c
 	}, func(c llmnrCase) []vf.Finding {
+		if c.Describe {
+			s.Class("describe-packet-handler-in-chain")
+		}
 		if c.Debug {
 			s.Class("debug-logging")
 		}
